@@ -5,8 +5,9 @@ R4i  `for PAT in P {`  with P a bare place path (identifiers joined by `.`)  -> 
      collection rustc rejects the generated text (owned collections yield owned items, the body would no longer type-check).
 R4n  `for PAT in E {`  ->  `for PAT in vx_itN: E {`   names the ghost iterator (Verus annotation syntax, no run-time meaning) so
      that loop invariants can mention the iteration state.  Loops that already carry a name are left alone.
-R4z  `for (P1, P2) in A.iter().zip(B.iter()) { BODY }` with A, B place paths and Pi = `x` or `&x`
-     ->  `for vx_zN in 0..(A.len()).min(B.len()) { let x1 = [&]A[vx_zN]; let x2 = [&]B[vx_zN]; BODY }`
+R4z  `for (P1, P2) in A.iter().zip(B.iter()) { BODY }` with A, B place paths and Pi = `Q` or `&Q`, Q any irrefutable pattern
+     (identifier, tuple destructuring, ...)
+     ->  `for vx_zN in 0..(A.len()).min(B.len()) { let Q1 = [&]A[vx_zN]; let Q2 = [&]B[vx_zN]; BODY }`   (`&Q` binds by value)
      definitional: `zip` yields the pairs (A[i], B[i]) for i < min(len A, len B), in order.
 """
 from vxlib.lexer import lex, sig
@@ -101,13 +102,15 @@ def r4n_name_iterators(text, log):
         log["R4n ghost iterator named"] = log.get("R4n ghost iterator named", 0) + 1
 
 
-def _pat(st, a, b):
-    """pattern tokens st[a:b] = `x` | `&x` | `mut x`?  -> (name, deref) or None"""
-    if b - a == 1 and st[a].kind == "ident":
-        return st[a].text, False
-    if b - a == 2 and st[a].text == "&" and st[a + 1].kind == "ident":
-        return st[a + 1].text, True
-    return None
+def _pat(text, st, a, b):
+    """pattern tokens st[a:b]: `P` or `&P` with P any irrefutable pattern (identifier, tuple, ...) -> (pattern text, deref) or None"""
+    if a >= b:
+        return None
+    if st[a].text == "&":
+        if a + 1 >= b:
+            return None
+        return text[st[a + 1].start:st[b - 1].end], True
+    return text[st[a].start:st[b - 1].end], False
 
 
 def r4z_zip(text, log):
@@ -127,14 +130,19 @@ def r4z_zip(text, log):
                 continue
             # split the tuple pattern at the top-level comma
             comma = None
-            for q in range(i + 2, pc):
+            q = i + 2
+            while q < pc:
+                if st[q].kind == "punct" and st[q].text in "([":
+                    q = match_close(st, q) + 1
+                    continue
                 if st[q].text == ",":
                     comma = q
                     break
+                q += 1
             if comma is None:
                 continue
-            p1 = _pat(st, i + 2, comma)
-            p2 = _pat(st, comma + 1, pc)
+            p1 = _pat(text, st, i + 2, comma)
+            p2 = _pat(text, st, comma + 1, pc)
             if p1 is None or p2 is None:
                 continue
             # A . iter ( ) . zip ( B . iter ( ) )
